@@ -540,6 +540,8 @@ def _norm_index(idx):
             sym[0] = True
             return x
         if isinstance(x, LazyIdx):
+            if x._forced is not None:
+                return x._forced.typed()
             sym[0] = True
             return x
         if isinstance(x, LazyMasked):
